@@ -235,13 +235,49 @@ def check_zero_leaf(inp):
       return f'{name}: an all-zero leaf makes the aggregate NaN/Inf: {jax.tree_util.tree_map(lambda x: np.asarray(x).tolist(), out)}'
 
 
+def check_leafwise(inp):
+  """The pytree quantizers work LEAF BY LEAF: each leaf is quantized onto the grid between ITS OWN minimum and maximum
+  (values stay in the leaf's range, error at most one step of the leaf's grid; constant / all-zero leaves pass through),
+  whatever the ranges of the other leaves."""
+  rs = np.random.RandomState(inp.get('seed', 0))
+  tree = {'big': jnp.asarray((rs.randn(30) * 50).astype(np.float32)), 'small': jnp.asarray((rs.rand(12) * 1e-2).astype(np.float32)),
+          'bias': jnp.zeros(4, jnp.float32), 'const': jnp.full((3,), 2.0, jnp.float32), 'neg': jnp.asarray([-7.0, -6.5, -6.0], jnp.float32)}
+  levels = inp['levels']
+  for d in range(3):
+    key = jax.random.PRNGKey(inp.get('seed', 0) * 10 + d)
+    q = cp.uniform_stochastic_quantize_pytree(tree, levels, key)
+    for nm, leaf in tree.items():
+      x, y = np.asarray(leaf, np.float64), np.asarray(q[nm], np.float64)
+      lo, hi = x.min(), x.max()
+      step = (hi - lo) / (levels - 1)
+      if y.shape != x.shape or (y < lo - 1e-5 * (1 + abs(lo))).any() or (y > hi + 1e-5 * (1 + abs(hi))).any():
+        return f'uniform_stochastic_quantize_pytree ({levels} levels): leaf {nm!r} left its own range [{lo}, {hi}]: {y.tolist()[:6]}'
+      if (np.abs(y - x) > step * (1 + 1e-4) + 1e-6).any():
+        return (f'uniform_stochastic_quantize_pytree ({levels} levels): leaf {nm!r} is off by {np.abs(y - x).max()} > one step '
+                f'{step} of its own grid')
+    t = cp.terngrad_quantize_pytree(tree, key)
+    for nm, leaf in tree.items():
+      x, y = np.asarray(leaf, np.float64), np.asarray(t[nm], np.float64)
+      s_ = np.abs(np.clip(x, x.mean() - 2.5 * x.std(), x.mean() + 2.5 * x.std())).max() if False else None
+      lv = np.unique(np.round(np.abs(y[y != 0]), 6))
+      if len(lv) > 1:
+        return f'terngrad_quantize_pytree: leaf {nm!r} has more than one non-zero magnitude {lv.tolist()} (levels are per leaf: {{-s, 0, +s}})'
+      if len(lv) == 1 and lv[0] > np.abs(x).max() * (1 + 1e-5) + 1e-7:
+        return f'terngrad_quantize_pytree: leaf {nm!r} magnitude {lv[0]} exceeds the largest magnitude {np.abs(x).max()} of the leaf'
+
+
+def sweep_leafwise(tier, seed):
+  for lv in (2, 4, 17):
+    yield dict(levels=lv, seed=seed)
+
+
 def sweep_zero_leaf(tier, seed):
   for a in ('uniform', 'rotated', 'drive', 'terngrad'):
     yield dict(agg=a)
 
 
 CHECKERS = {'quantizers': (check_quantizers, sweep_quantizers), 'aggregators': (check_aggregators, sweep_aggregators),
-            'zero_leaf': (check_zero_leaf, sweep_zero_leaf)}
+            'zero_leaf': (check_zero_leaf, sweep_zero_leaf), 'leafwise': (check_leafwise, sweep_leafwise)}
 
 if __name__ == '__main__':
   sys.exit(common.main(CHECKERS))
